@@ -32,13 +32,12 @@ theorem complete_not_reset {g : List NodeInfo} {s : State} {o : Obj} (hr : Reach
   unfold resetOk at hro
   simp only [reach_full hr, Bool.false_eq_true, if_false, Bool.and_eq_true, Bool.or_eq_true,
     beq_iff_eq] at hro
-  rcases hro.2.2 with ((h | h) | h) | h
+  rcases hro.2.2 with ((h | h) | ⟨h, _⟩) | h
   · rw [hc] at h; cases h
   · rw [hc] at h; cases h
   · rw [hc] at h; cases h
-  · have := ((reach_objsInv hr o).jj hj h).2.1
-    have hc' := (metaState_complete hc).2.2
-    rw [this] at hc'; cases hc'
+  · -- `restartQueuedLocal` (as repaired by 23063ab): a complete job only loses `_queued_locally`
+    rw [hc] at h; simp at h
 
 /-- finished work stays on disk: whatever event happens next, a job object whose
 directory state is complete keeps its `_complete` file -/
@@ -119,31 +118,42 @@ theorem fullreset_wipes_finished_work :
     | .ok s => s.dst ⟨0, 0, .chunk 0⟩ == some .complete && enabled s (.reset ⟨0, 0, .chunk 0⟩)
     | .error _ => false) = true := by decide
 
-/-! ### the continuation after a restart completes (both reset modes) -/
+/-! ### the continuation after a restart completes (both reset modes)
+
+`s.alive` (ghost) = the job objects whose submitted job has neither ended nor died: `launch` adds,
+`jobend` / `silentfail` / `killed` / `reset` remove; `joblog` and `jobend` need it.  `killed o` is
+the death of a job without a trace (it dies with mrp, or the scheduler loses it); a `reset` of a
+job whose directory says running is only permitted when the job is dead (`restartLocal`'s pid
+test).  `AliveInv s` = every job that is submitted and has no `_complete` on disk is alive — i.e.
+EVERY JOB THAT DIED HAS BEEN RESET.  That is exactly what `RestartLocalJobs` is for; a restart
+that leaves a dead job un-reset wedges the pipestance (`dead_unreset_job_wedges`). -/
 
 /-- `restart_completes` (default reset mode): take ANY reachable state `s0` without failure
 markers on disk — in particular the state right after any accepted history followed by
 `crash; restart`, whatever was in flight — and ANY continuation from it that contains no
-failure event, finitely many interruptions (`crash`/`restart`/`reset`) and fork-structure
-events, leaves mrp up after the last of them, and is fair: it reaches a finished
-pipestance and stays there.  (Vocabulary: Props/C03 header.) -/
+failure event, finitely many interruptions (`crash`/`restart`/`reset`/`killed`) and
+fork-structure events, after the last of which mrp is up and every job that died has been
+reset (`AliveInv`: the resets performed may be ANY subset of the permitted ones that contains
+the dead running/queued jobs), and that is fair: it reaches a finished pipestance and stays
+there.  (Vocabulary: Props/C03 header.) -/
 theorem restart_completes {g : List NodeInfo} {s0 : State} {σ : Nat → State} {es : Nat → Ev}
     (hr : Reach g s0) (hclean : CleanInv s0) (hac : Acyclic g) (hrun : Run s0 σ es)
     (hnf : ∀ i, (es i).failing = false) {K : Nat}
     (hK : ∀ i, K ≤ i → (es i).structural (σ i) = false) (hup : (σ K).phase ≠ .crashed)
-    (hfair : Fair σ) : ∃ M, K ≤ M ∧ ∀ j, M ≤ j → Finished (σ j) :=
+    (halive : AliveInv (σ K)) (hfair : Fair σ) : ∃ M, K ≤ M ∧ ∀ j, M ≤ j → Finished (σ j) :=
   interrupted_run_finishes hrun (reach_liveInv hr hclean) (by rw [reach_nodes hr]; exact hac)
-    hnf hK hup hfair
+    hnf hK hup halive hfair
 
 /-- the same in `FullStageReset` mode: wiping whole Running/Failed nodes at restart (any
-subset of their objects, in any order) never wedges the pipestance -/
+subset of their objects, in any order, as long as no dead job is left behind) never wedges
+the pipestance -/
 theorem fullreset_restart_completes {g : List NodeInfo} {s0 : State} {σ : Nat → State}
     {es : Nat → Ev} (hr : ReachFull g s0) (hclean : CleanInv s0) (hac : Acyclic g)
     (hrun : Run s0 σ es) (hnf : ∀ i, (es i).failing = false) {K : Nat}
     (hK : ∀ i, K ≤ i → (es i).structural (σ i) = false) (hup : (σ K).phase ≠ .crashed)
-    (hfair : Fair σ) : ∃ M, K ≤ M ∧ ∀ j, M ≤ j → Finished (σ j) :=
+    (halive : AliveInv (σ K)) (hfair : Fair σ) : ∃ M, K ≤ M ∧ ∀ j, M ≤ j → Finished (σ j) :=
   interrupted_run_finishes hrun (reachFull_liveInv hr hclean)
-    (by rw [reachFull_nodes hr]; exact hac) hnf hK hup hfair
+    (by rw [reachFull_nodes hr]; exact hac) hnf hK hup halive hfair
 
 /-- the hypothesis `CleanInv` is kept by every event that is not a failure event
 (interruptions and resets included), in either mode: a history without failure events
@@ -152,34 +162,60 @@ theorem no_failure_keeps_clean {s : State} {e : Ev} (hen : enabled s e = true)
     (hnf : e.failing = false) (h : CleanInv s) : CleanInv (apply s e) :=
   cleanInv_step hen hnf h
 
-/-- `restart_completes_same` (design §4 C05; default reset mode): take two runs of the same
-acyclic graph from its initial state, both fair, both without failure events, both with
-finitely many interruptions and fork-structure events and with mrp up after the last one —
-say, one in which mrp is killed after arbitrary prefixes (any number of `crash`/`restart`
-with any of the resets `Pipestance.Reset`/`RestartLocalJobs` may perform) and an
-uninterrupted one.  Both finish, and from then on, whenever the two agree on what the
-ENVIRONMENT chose (fork sets, chunk counts, which forks were disabled — C01's
-schedule-freedom says the data determines these), the directory state of EVERY object of
-every stage fork is the same in both: the interrupted run ends with the same per-job
-outcome set.  (`Ev.benign`: no failure event, and chunk counts are not redefined while
-re-attaching — the model keeps them across `restart`.) -/
-theorem restart_completes_same {g : List NodeInfo} (hac : Acyclic g)
+/-- `AliveInv` is kept by every event of a run without failures and interruptions, and
+re-established for an object by its reset -/
+theorem no_interruption_keeps_alive {s : State} {e : Ev} (hen : enabled s e = true)
+    (hff : e.failureFree = true) (h : AliveInv s) : AliveInv (apply s e) :=
+  aliveInv_step hen hff h
+
+/-- Negative witness: the split was running when mrp was killed and died with it; the restart
+does NOT reset it.  The pipestance is not finished and no event of the scheduler/job/journal
+alphabet can ever happen again: resetting dead jobs is necessary. -/
+def hDead : List Ev :=
+  [.fork 0 0, .nodestate 0 .running, .refresh, .launch ⟨0, 0, .split⟩, .joblog ⟨0, 0, .split⟩,
+   .crash, .killed ⟨0, 0, .split⟩, .restart, .refresh]
+def sDead : State := prefixState (init [{ kind := .splitstage, pre := [] }]) hDead 9
+
+theorem dead_unreset_job_wedges :
+    ¬ Finished sDead ∧ (∀ e, ¬ Progress sDead e) ∧ enabled sDead (.jobend ⟨0, 0, .split⟩ .complete) = false ∧
+    ¬ AliveInv sDead := by
+  refine ⟨fun h => ?_, no_progress_of_quiescent ?_ (by decide), by decide, fun h => ?_⟩
+  · exact absurd (h.2 0 (by decide)).1 (by decide)
+  · exact reach_objsInv (run_reach (run_of_list _ hDead (by decide)) 9)
+  · have := h 0 0 .split (by simp) (by decide) (by decide)
+    exact absurd this (by decide)
+
+/-- `restart_completes_same_completion_set` (default reset mode; formerly `restart_completes_same`):
+take two runs of the same acyclic graph from its initial state, both fair, both without
+failure events, both with finitely many interruptions and fork-structure events, with mrp up
+and every dead job reset after the last one — say, one in which mrp is killed after arbitrary
+prefixes and an uninterrupted one.  Both finish, and from then on, whenever the two agree on
+what the ENVIRONMENT chose (fork sets, chunk counts, which forks were disabled), the DIRECTORY
+STATE (which sentinels: complete / nothing) of every object of every stage fork is the same
+in both: the interrupted run ends with the same set of completed job directories.
+What this does NOT say: the model has no output values, `_outs` or files; that equal choices
+and equal completion sets give equal output VALUES is C01's schedule-freedom (`den_schedule_free`:
+the value of every call is a function of the resolved arguments) together with the harness's
+comparison of the real top-level outputs, not a consequence of this theorem; and the premise
+`SameChoices` is assumed, not derived (the data determines the choices).  (`Ev.benign`: no
+failure event, and chunk counts are not redefined while re-attaching.) -/
+theorem restart_completes_same_completion_set {g : List NodeInfo} (hac : Acyclic g)
     {σ : Nat → State} {es : Nat → Ev} (hrun : Run (init g) σ es)
     (hb : ∀ i, (es i).benign (σ i) = true) {K : Nat}
     (hK : ∀ i, K ≤ i → (es i).structural (σ i) = false) (hup : (σ K).phase ≠ .crashed)
-    (hfair : Fair σ)
+    (halive : AliveInv (σ K)) (hfair : Fair σ)
     {σ' : Nat → State} {es' : Nat → Ev} (hrun' : Run (init g) σ' es')
     (hb' : ∀ i, (es' i).benign (σ' i) = true) {K' : Nat}
     (hK' : ∀ i, K' ≤ i → (es' i).structural (σ' i) = false) (hup' : (σ' K').phase ≠ .crashed)
-    (hfair' : Fair σ') :
+    (halive' : AliveInv (σ' K')) (hfair' : Fair σ') :
     ∃ M, ∀ j, M ≤ j → Finished (σ j) ∧ Finished (σ' j) ∧
       (SameChoices (σ j) (σ' j) →
         ∀ n f r, n < g.length → f ∈ (σ j).forksOf n → (σ j).kind n ≠ .pipeline →
           (σ j).dst ⟨n, f, r⟩ = (σ' j).dst ⟨n, f, r⟩) := by
   have hnf := fun i => benign_nf (hb i)
   have hnf' := fun i => benign_nf (hb' i)
-  obtain ⟨M, _, hM⟩ := interrupted_run_finishes hrun (liveInv_init g) hac hnf hK hup hfair
-  obtain ⟨M', _, hM'⟩ := interrupted_run_finishes hrun' (liveInv_init g) hac hnf' hK' hup' hfair'
+  obtain ⟨M, _, hM⟩ := interrupted_run_finishes hrun (liveInv_init g) hac hnf hK hup halive hfair
+  obtain ⟨M', _, hM'⟩ := interrupted_run_finishes hrun' (liveInv_init g) hac hnf' hK' hup' halive' hfair'
   have hl := run_liveInv hrun (liveInv_init g) hnf
   have hl' := run_liveInv hrun' (liveInv_init g) hnf'
   refine ⟨max M M', fun j hj => ⟨hM j (by omega), hM' j (by omega), ?_⟩⟩
